@@ -377,8 +377,13 @@ func loopOverGuardedCollection(fi *FactInfo, l *Loop, fixTrue Fact) (bool, strin
 
 // ---- FANOUT ----------------------------------------------------------------------------------
 
+// fanoutSites: per collection field of the store, the CheckIntegrity call that visits its elements (filled by
+// ruleC09Fanout, read by ruleC09FanoutAlways).
+var fanoutSites = map[*types.Var]ssa.CallInstruction{}
+
 func ruleC09Fanout(c *Ctx, cg *CG, sum *Summary) {
 	p := c.P
+	fanoutSites = map[*types.Var]ssa.CallInstruction{}
 	fn := p.SSAFunc(p.Method("boltz", "BaseStore", "CheckIntegrity"))
 	name := FnName(fn)
 	c.Analysed(name)
@@ -400,9 +405,22 @@ func ruleC09Fanout(c *Ctx, cg *CG, sum *Summary) {
 			}
 		}
 		if site == nil {
+			// gathered first (the elements, or small structs holding them, put into a local list in a loop over the
+			// field), then visited in one loop over that list
+			for _, g := range gatheredFrom(fn, want.fld) {
+				for _, call := range callsIn(fn) {
+					cc := call.Common()
+					if cc.IsInvoke() && cc.Method.Name() == "CheckIntegrity" && fromGathered(cc.Value, g, 0) {
+						site = call
+					}
+				}
+			}
+		}
+		if site == nil {
 			c.Bad("C09.FANOUT", construct, p.Pos(fn.Pos()), "no CheckIntegrity call on the elements of this collection")
 			continue
 		}
+		fanoutSites[want.fld] = site
 		l := innermostLoop(loops, site.Block())
 		if l == nil {
 			c.Bad("C09.FANOUT", construct, p.Pos(site.Pos()), "the element check is not inside a loop over the collection")
@@ -871,8 +889,8 @@ func ruleC09FanoutAlways(c *Ctx) {
 			}
 		}
 	}
-	ok := len(fanLoops) >= 2
-	why := fmt.Sprintf("expected the two fan-out loops (link collections, constraints), found %d", len(fanLoops))
+	ok := len(fanoutSites) >= 2
+	why := fmt.Sprintf("expected a fan-out over both the link collections and the constraints, found %d", len(fanoutSites))
 	for _, l := range fanLoops {
 		hdr := l.Header
 		ri := reachWithout(fn, func(in ssa.Instruction) bool { return in.Block() == hdr })
@@ -918,6 +936,13 @@ func ruleC09Dangling(c *Ctx) {
 		src, ok := recv.(*ssa.Call)
 		if !ok || !invokeNamed(src, "GetEntityBucket") {
 			continue
+		}
+		// ... of the REFERENCING store (index.symbol's): the bucket of the referenced entity (index.fkSymbol's
+		// store) is where a missing back-reference is repaired, which is the right thing to do for a present target
+		if st, isCall := src.Call.Value.(*ssa.Call); isCall && invokeNamed(st, "GetStore") {
+			if f, _ := loadedField(st.Call.Value); f != nil && f.Name() == "fkSymbol" {
+				continue
+			}
 		}
 		may := isW(call)
 		if !may {
